@@ -265,7 +265,26 @@ pub mod sched {
         pub bytes_after: Option<Vec<u8>>,
     }
 
-    pub fn run(case: &ThrCase, x: Box<dyn DynDs>, batch: Vec<(Q, A)>, _fam: &str) -> SchedResult {
+    pub fn run(case: &ThrCase, x: Box<dyn DynDs>, batch: Vec<(Q, A)>, fam: &str) -> SchedResult {
+        let r = run_once(case, x.clone_box(), batch.clone(), fam);
+        if case.replay_schedule.is_some() {
+            if let Some((detail, class)) = &r.failure {
+                if class != "answer_differs_from_single_thread" {
+                    // the recorded schedule does not fit this code any more (shuttle reports e.g. "schedule ended
+                    // early"): that says nothing about the property; explore seeded schedules instead
+                    let _ = detail;
+                    let mut c = case.clone();
+                    c.replay_schedule = None;
+                    let mut r2 = run_once(&c, x, batch, fam);
+                    r2.counters.insert("recorded_schedule_not_applicable".into(), 1);
+                    return r2;
+                }
+            }
+        }
+        r
+    }
+
+    fn run_once(case: &ThrCase, x: Box<dyn DynDs>, batch: Vec<(Q, A)>, _fam: &str) -> SchedResult {
         std::env::remove_var("SHUTTLE_RANDOM_SEED");
         let kind = x.kind();
         let shared: Arc<(Box<dyn DynDs>, Vec<(Q, A)>)> = Arc::new((x, batch));
